@@ -110,8 +110,12 @@ impl Recv {
 
         self.stopped = true;
         self.assembler.clear();
-        // Issue flow control credit for unread data
-        let read_credits = self.end - self.assembler.bytes_read();
+        // Issue flow control credit for unread data, unless the stream was reset: then credit up
+        // to the final offset was already issued when the reset was received
+        let read_credits = match self.state {
+            RecvState::Recv { .. } => self.end - self.assembler.bytes_read(),
+            RecvState::ResetRecvd { .. } => 0,
+        };
         // This may send a spurious STOP_SENDING if we've already received all data, but it's a bit
         // fiddly to distinguish that from the case where we've received a FIN but are missing some
         // data that the peer might still be trying to retransmit, in which case a STOP_SENDING is
